@@ -2,7 +2,7 @@
    Property theorems only; proofs are in ProofC01.v and ProofSession.v.  sh_words (the shell's word splitting) and
    tty_echo (the line discipline's echo) are environment models, validated against the real bash, dash and a real
    pty on every run (see Sh.v). *)
-From TV Require Import Base Utf8 Regex Channel ChannelLemmas Hush Session ProofSession Sh ProofC01 ProofC09b.
+From TV Require Import Base Utf8 Regex Channel ChannelLemmas Hush Session ProofSession Sh ProofC01 ProofC09b ProofInit.
 
 (* (1) no word splitting, globbing, expansion or injection: the shell splits the line tbot sends into exactly the
        given strings, one argument per string -- for every list of strings without NUL *)
@@ -86,3 +86,49 @@ Theorem C01_ps1_echo_has_no_prompt :
   contains TBOT_PROMPT (tty_echo false (PS1_LINE ++ [CR])) = false.
 Proof. exact ps1_echo_has_no_prompt. Qed.
 Print Assumptions C01_ps1_echo_has_no_prompt.
+
+(* (7) _init_shell after the probe has been answered (init_shell = wait_for_shell, then init_rest: lemma
+       init_shell_unfold): when the console answers the PS1 line, every configuration line and the sanity check with
+       output that contains the prompt only at its end, the initialisation succeeds for EVERY fragmentation and timing
+       of those answers, also with part of the probe's answer still unread (pre); afterwards the channel is in sync,
+       the prompt is set and the black-list of the shell class is installed *)
+Theorem C01_init_after_probe_ok :
+  forall bl cfg c1 pre (st_ps1 : stage) (stgs : list stage) (st_san : stage) noise1,
+  quiet c1 -> cpend c1 = pre ->
+  any_in bl (PS1_LINE ++ [CR]) = false ->
+  Forall (fun l => any_in bl (l ++ [CR]) = false) cfg ->
+  any_in bl (SANITY ++ [CR]) = false ->
+  wf_pend st_ps1 -> cat st_ps1 = noise1 ++ TBOT_PROMPT -> prompt_only_at_end TBOT_PROMPT (pre ++ noise1) ->
+  Forall2 (fun l stg => wf_pend stg /\ exists noise, cat stg = noise ++ TBOT_PROMPT /\ prompt_only_at_end TBOT_PROMPT noise) cfg stgs ->
+  wf_pend st_san -> cat st_san = tty_echo false (SANITY ++ [CR]) ++ onlcr SANITY_ANSWER ++ TBOT_PROMPT ->
+  prompt_only_at_end TBOT_PROMPT (onlcr SANITY_ANSWER) ->
+  exists c', init_rest bl PS1_LINE cfg (st_ps1 :: stgs ++ [st_san]) c1 = (IOk, c', []) /\
+             insync c' /\ prompt c' = Some (SLit TBOT_PROMPT) /\ blacklist c' = bl.
+Proof. exact init_after_probe_ok. Qed.
+Print Assumptions C01_init_after_probe_ok.
+
+(* ... in particular on a console that answers every line with its echo and the prompt *)
+Theorem C01_init_echo_console_ok :
+  forall bl cfg c1 ectl (st_ps1 : stage) (stgs : list stage) (st_san : stage),
+  quiet c1 -> cpend c1 = [] ->
+  any_in bl (PS1_LINE ++ [CR]) = false ->
+  Forall (fun l => any_in bl (l ++ [CR]) = false) cfg ->
+  any_in bl (SANITY ++ [CR]) = false ->
+  wf_pend st_ps1 -> cat st_ps1 = tty_echo ectl (PS1_LINE ++ [CR]) ++ TBOT_PROMPT ->
+  Forall2 (fun l stg => wf_pend stg /\ cat stg = tty_echo ectl (l ++ [CR]) ++ TBOT_PROMPT) cfg stgs ->
+  forallb (fun l => poe_b TBOT_PROMPT (tty_echo ectl (l ++ [CR]))) cfg = true ->
+  wf_pend st_san -> cat st_san = tty_echo false (SANITY ++ [CR]) ++ onlcr SANITY_ANSWER ++ TBOT_PROMPT ->
+  exists c', init_rest bl PS1_LINE cfg (st_ps1 :: stgs ++ [st_san]) c1 = (IOk, c', []) /\
+             insync c' /\ prompt c' = Some (SLit TBOT_PROMPT) /\ blacklist c' = bl.
+Proof. exact init_echo_console_ok. Qed.
+Print Assumptions C01_init_echo_console_ok.
+
+Theorem C01_init_shell_is_probe_then_rest :
+  forall fuel t bl ps1 cfg sts c,
+  init_shell fuel t bl ps1 cfg sts c =
+  match wait_for_shell fuel t sts c with
+  | (IOk, c1, sts1) => init_rest bl ps1 cfg sts1 c1
+  | r => r
+  end.
+Proof. exact init_shell_unfold. Qed.
+Print Assumptions C01_init_shell_is_probe_then_rest.
